@@ -7,4 +7,5 @@ CONSTANTS
   PairGapMax = 6
   Nested = FALSE
   OptionSet <- QuickOptions
+  OwnLineOptions <- QuickOptions
 INVARIANTS FSpineOK FEmit
